@@ -964,3 +964,93 @@ Proof.
   intros Hwf (order & H). apply ci_check_correct in H.
   eapply de_check_sound. apply (de_construct_accepted alts ballots order Hwf H).
 Qed.
+
+(* ------------------------------------------------------------------------------------------------ *)
+(* dichotomous Euclidean => CI: sort the alternatives by their position *)
+From Coq Require Import Sorted Lqa.
+
+Section SortByKey.
+Variable key : N -> Q.
+
+Fixpoint insert_by (a : N) (l : list N) : list N :=
+  match l with
+  | [] => [a]
+  | y :: t => if Qle_bool (key a) (key y) then a :: y :: t else y :: insert_by a t
+  end.
+Definition sort_by (l : list N) : list N := fold_right insert_by [] l.
+
+Lemma insert_by_perm a l : Permutation (a :: l) (insert_by a l).
+Proof.
+  induction l as [|y t IH]; simpl; [reflexivity|]. destruct (Qle_bool (key a) (key y)); [reflexivity|].
+  transitivity (y :: a :: t); [apply perm_swap|]. now constructor.
+Qed.
+
+Lemma sort_by_perm l : Permutation l (sort_by l).
+Proof.
+  induction l as [|a t IH]; simpl; [constructor|].
+  transitivity (a :: sort_by t); [now constructor|apply insert_by_perm].
+Qed.
+
+Definition key_le (a b : N) : Prop := (key a <= key b)%Q.
+
+Lemma insert_by_sorted a l : StronglySorted key_le l -> StronglySorted key_le (insert_by a l).
+Proof.
+  induction l as [|y t IH]; simpl; intros Hs.
+  - constructor; constructor.
+  - inversion Hs as [|? ? Hst Hall]; subst. destruct (Qle_bool (key a) (key y)) eqn:E.
+    + apply Qle_bool_iff in E. constructor; [exact Hs|]. constructor; [exact E|].
+      rewrite Forall_forall in *. intros z Hz. unfold key_le in *. specialize (Hall z Hz). lra.
+    + assert (Hlt : (key y <= key a)%Q).
+      { destruct (Qlt_le_dec (key y) (key a)) as [H|H]; [lra|]. apply Qle_bool_iff in H. congruence. }
+      constructor; [now apply IH|]. rewrite Forall_forall in *. intros z Hz.
+      apply (Permutation_in _ (Permutation_sym (insert_by_perm a t))) in Hz.
+      destruct Hz as [<-|Hz]; [exact Hlt|now apply Hall].
+Qed.
+
+Lemma sort_by_sorted l : StronglySorted key_le (sort_by l).
+Proof. induction l as [|a t IH]; simpl; [constructor|now apply insert_by_sorted]. Qed.
+
+Lemma sorted_nth l d : StronglySorted key_le l ->
+  forall i j, (i < j)%nat -> (j < length l)%nat -> key_le (nth i l d) (nth j l d).
+Proof.
+  induction 1 as [|x t Hs IH Hall]; intros i j Hij Hj; simpl in *; [lia|].
+  destruct j as [|j]; [lia|]. destruct i as [|i].
+  - rewrite Forall_forall in Hall. apply Hall, nth_In. lia.
+  - apply IH; lia.
+Qed.
+End SortByKey.
+
+Theorem de_implies_ci alts ballots : DE alts ballots -> CI alts ballots.
+Proof.
+  intros (vpr & p & H). exists (sort_by p alts). split; [apply sort_by_perm|].
+  assert (Hperm := sort_by_perm p alts).
+  assert (Hsorted := sort_by_sorted p alts).
+  unfold DE_embed in H. induction H as [|b v bs vs Hbv _ IH]; constructor; [|exact IH].
+  apply (contig01_map (fun a => mem a b) (fun a => In a b) (fun a => mem_iff a b)).
+  apply (contig01_map_between (fun a => mem a b) (fun a => In a b) (fun a => mem_iff a b)).
+  intros i j k d Hij Hjk Hk Hi Hkk.
+  set (order := sort_by p alts) in *.
+  assert (Hin : forall n, (n < length order)%nat -> In (nth n order d) alts).
+  { intros n Hn. apply (Permutation_in _ (Permutation_sym Hperm)), nth_In, Hn. }
+  apply (Hbv _ (Hin i ltac:(lia))) in Hi. apply (Hbv _ (Hin k Hk)) in Hkk.
+  apply (Hbv _ (Hin j ltac:(lia))).
+  apply Qabs_Qle_condition in Hi. apply Qabs_Qle_condition in Hkk. apply Qabs_Qle_condition.
+  pose proof (sorted_nth p order d Hsorted i j Hij ltac:(lia)) as H1.
+  pose proof (sorted_nth p order d Hsorted j k Hjk Hk) as H2.
+  unfold key_le in *. lra.
+Qed.
+
+(* dichotomous Euclidean over rational positions <-> candidate interval *)
+Theorem de_iff_ci alts ballots :
+  Forall (fun b => incl b alts) ballots -> (DE alts ballots <-> CI alts ballots).
+Proof. intros Hwf. split; [apply de_implies_ci|now apply ci_implies_de]. Qed.
+
+Theorem de_decide_correct alts ballots :
+  Forall (fun b => incl b alts) ballots -> (de_decide alts ballots = true <-> DE alts ballots).
+Proof.
+  intros Hwf. unfold de_decide. rewrite existsb_exists. split.
+  - intros (order & _ & H). now apply de_check_sound in H.
+  - intros H. apply de_implies_ci in H. destruct H as (order & H). exists order. split.
+    + apply perms_iff. apply H.
+    + apply de_construct_accepted; [exact Hwf|now apply ci_check_correct].
+Qed.
